@@ -23,6 +23,9 @@ pub enum Wait {
     Forever,
     /// max_wait_duration(Duration::ZERO) instead of reject_when_full()
     ZeroDuration,
+    /// max_wait_duration(Duration::from_micros(us)), 0 < us < 1000: a wait, however short (on the
+    /// whole-millisecond grid the rejection falls on the next instant)
+    Micros(u32),
 }
 
 #[derive(Clone, Debug, Serialize, Deserialize)]
@@ -76,6 +79,7 @@ fn case_strategy(tier: Tier) -> BoxedStrategy<BhCase> {
         2 => (1u64..=80).prop_map(Wait::Ms),
         1 => Just(Wait::Forever),
         1 => Just(Wait::ZeroDuration),
+        1 => prop_oneof![Just(1u32), Just(500u32), 1u32..=999].prop_map(Wait::Micros),
     ];
     let caller = (
         gen::instant(80),
@@ -317,6 +321,7 @@ async fn interp(case: &BhCase) -> Verdict {
                 Wait::Ms(ms) => b.max_wait_duration(Duration::from_millis(ms)),
                 Wait::Forever => b.max_wait_duration(Duration::MAX),
                 Wait::ZeroDuration => b.max_wait_duration(Duration::ZERO),
+                Wait::Micros(us) => b.max_wait_duration(Duration::from_micros(us as u64)),
             }),
         ],
         case.setter_order,
@@ -345,6 +350,7 @@ async fn interp(case: &BhCase) -> Verdict {
         Wait::None | Wait::Forever => None,
         Wait::Zero | Wait::ZeroDuration => Some(0),
         Wait::Ms(ms) => Some(ms),
+        Wait::Micros(_) => Some(1),
     };
 
     let n = case.callers.len();
